@@ -357,6 +357,21 @@ def runStep (st : RunSt) (line : String) : RunSt × String :=
         | some s'' => ans s'' s!"rel={fmtIds rel}"
         | none => ans s' "model-error"
       | _ => ans s "not-enabled"
+    | "rollx" =>
+      -- roll-over whose critical section overlaps r's TTL firing:  expire r ; roll ; finish r
+      match kvNat ws "r", ws.length with
+      | some r, 1 =>
+        match step st.cfg s (.expire r) with
+        | some (s1, _) =>
+          match step st.cfg s1 .roll with
+          | some (s2, .roll rel) =>
+            let others := (rel.filter (fun x => (phaseOf s1.reqs x).isParked)).map Label.finish
+            match applyAll st.cfg s2 (.finish r :: others) with
+            | some s3 => ans s3 s!"rel={fmtIds rel} ret={rel.contains r}"
+            | none => ans s2 "model-error"
+          | _ => ans s "not-enabled"
+        | none => ans s "not-enabled"
+      | _, _ => (st, "bad-op")
     | "expire" =>
       match kvNat ws "r" with
       | some r =>
@@ -433,6 +448,17 @@ def judgeStep (s : JudgeSt) (op out : String) : JudgeSt :=
           (rel.filter (fun x => (phaseOf s.o.reqs x).isParked)).map (fun r => .finish r true)))
       | none => fail "unparsable"
     | none => fail "unparsable"
+  | ["rollx", rw] =>
+    match kvNat [rw] "r", ows.head?, (kv ows "rel").bind parseIds, kv ows "ret" with
+    | some r, some a, rel?, ret? =>
+      if a == "not-enabled" then checkC s else
+      match rel?, ret? with
+      | some rel, some ret =>
+        let s1 := s.push [.expire r]
+        let others := (rel.filter (fun x => x != r && (phaseOf s1.o.reqs x).isParked)).map (fun x => Ev.finish x true)
+        checkC (s1.push (.roll rel :: .finish r (ret == "true") :: others))
+      | _, _ => fail "unparsable"
+    | _, _, _, _ => fail "unparsable"
   | "expire" :: ws =>
     match kvNat ws "r", ows.head? with
     | some r, some a =>
